@@ -253,11 +253,335 @@ impl BaseElement {
 
     //@@ source math/src/field/traits.rs
     //@@ extract anchor="fn square(self) -> Self"
+    pub open spec fn square_spec(self) -> Self { MulSpec::mul_spec(self, self) }
+
     pub fn square(self) -> (r: Self)
         requires wf(self)
-        ensures wf(r), v(r) == (v(self) * v(self)) % P
+        ensures wf(r), v(r) == (v(self) * v(self)) % P, r == self.square_spec()
     {
         proof { lemma_mul_val(self, self); }
+        /*@@body*/
+    }
+}
+
+// ---- exponentiation ------------------------------------------------------------------------------------
+
+proof fn lemma_powm_one(b: int)
+    requires 0 <= b < P
+    ensures powm(b, 1) == b
+{
+    reveal_with_fuel(powm, 2);
+    lemma_small_mod(b as nat, P as nat);
+}
+
+pub proof fn lemma_v_range(a: BaseElement)
+    ensures 0 <= v(a) < P
+{
+}
+
+/// the top bits of power: power >> i for i < 64, 0 for i == 64
+pub open spec fn high(power: u64, i: u32) -> nat { if i >= 64 { 0 } else { (power >> i) as nat } }
+
+impl BaseElement {
+    pub fn one() -> (r: Self) ensures wf(r), v(r) == 1
+    {
+        proof { lemma_small_mod(1, P as nat); }
+        /*@@expr source="math/src/field/f64/mod.rs" anchor="const ONE: Self ="*/
+    }
+
+    //@@ source math/src/field/f64/mod.rs
+    //@@ extract within="impl FieldElement for BaseElement" anchor="fn exp(self, power: Self::PositiveInteger) -> Self"
+    //@@ rewrite "Self::ONE" => "Self::one()"
+    //@@ rewrite "for i in (0..64).rev() {" => "let mut i: u32 = 64; while i > 0 { i = i - 1;"
+    //@@ rewrite "b *= self;" => "b = b * self;"
+    //@@ rewrite "let mask = -(((power >> i) & 1 == 1) as i64) as u64;" => "let mask: u64 = #[verifier::truncate] ((-(if (power >> i) & 1 == 1 { 1i64 } else { 0i64 })) as u64);"
+    //@@ rewrite "r.0 ^= mask & (r.0 ^ b.0);" => "r = BaseElement(r.0 ^ (mask & (r.0 ^ b.0)));"
+    //@@ before "let mut i: u32 = 64;"
+    //@@|        let ghost x = v(self);
+    //@@|        proof { reveal_with_fuel(powm, 1); }
+    //@@ after "i = i - 1;"
+    //@@|            let ghost e_old = high(power, (i + 1) as u32);
+    //@@ loop 1
+    //@@|            invariant
+    //@@|                wf(r), wf(self), i <= 64, x == v(self), 0 <= x < P,
+    //@@|                v(r) == powm(x, high(power, i)),
+    //@@|            decreases i
+    //@@ after "r = r.square();"
+    //@@|            proof {
+    //@@|                lemma_powm_add(x, e_old, e_old);
+    //@@|                assert(v(r) == powm(x, e_old + e_old));
+    //@@|            }
+    //@@ after "b = b * self;"
+    //@@|            proof {
+    //@@|                lemma_mul_val(r, self);
+    //@@|                lemma_powm_one(x);
+    //@@|                lemma_powm_add(x, e_old + e_old, 1);
+    //@@|                assert(v(b) == powm(x, e_old + e_old + 1));
+    //@@|                let i64_: u64 = i as u64;
+    //@@|                assert(i64_ < 63 ==> power >> i64_ == 2 * (power >> ((i64_ + 1) as u64)) + ((power >> i64_) & 1)) by (bit_vector);
+    //@@|                assert(i64_ == 63 ==> power >> i64_ == ((power >> i64_) & 1)) by (bit_vector);
+    //@@|                assert((power >> i64_) & 1 == 0 || (power >> i64_) & 1 == 1) by (bit_vector);
+    //@@|                assert(power >> i == power >> i64_) by (bit_vector) requires i64_ == i as u64, i < 64;
+    //@@|                assert(high(power, i) == e_old + e_old + ((power >> i) & 1));
+    //@@|            }
+    //@@ after "as u64);"
+    //@@|            proof {
+    //@@|                let (ro, bo) = (r.0, b.0);
+    //@@|                assert(mask == 0xFFFF_FFFF_FFFF_FFFFu64 ==> ro ^ (mask & (ro ^ bo)) == bo) by (bit_vector);
+    //@@|                assert(mask == 0u64 ==> ro ^ (mask & (ro ^ bo)) == ro) by (bit_vector);
+    //@@|                let m1: i64 = -1i64;
+    //@@|                assert((#[verifier::truncate] (m1 as u64)) == 0xFFFF_FFFF_FFFF_FFFFu64) by (bit_vector) requires m1 == -1i64;
+    //@@|                assert((power >> i) & 1 == 1 ==> mask == 0xFFFF_FFFF_FFFF_FFFFu64);
+    //@@|                assert((power >> i) & 1 != 1 ==> mask == 0u64);
+    //@@|            }
+    //@@ after "r = BaseElement(r.0 ^ (mask & (r.0 ^ b.0))); }"
+    //@@|        proof { assert(power >> 0u32 == power) by (bit_vector); }
+    pub fn exp(self, power: u64) -> (res: Self)
+        requires wf(self)
+        ensures wf(res), v(res) == powm(v(self), power as nat)
+    {
+        hide(redc);
+        proof { lemma_consts(); lemma_v_range(self); }
+        /*@@body*/
+    }
+}
+
+// ---- inversion by the addition chain x^(P-2) -------------------------------------------------------------
+
+pub open spec fn p2(n: nat) -> nat
+    decreases n
+{ if n == 0 { 1 } else { 2 * p2((n - 1) as nat) } }
+
+/// (x^a)^b == x^(a*b)
+proof fn lemma_powm_pow(x: int, a: nat, b: nat)
+    requires 0 <= x < P
+    ensures powm(powm(x, a), b) == powm(x, a * b)
+    decreases b
+{
+    lemma_powm_range(x, a);
+    if b == 0 {
+        reveal_with_fuel(powm, 1);
+        assert(a * 0 == 0);
+    } else {
+        lemma_powm_pow(x, a, (b - 1) as nat);
+        let y = powm(x, a);
+        // powm(y, b) == (y * powm(y, b-1)) % P == (powm(x,a) * powm(x, a*(b-1))) % P == powm(x, a + a*(b-1))
+        reveal_with_fuel(powm, 1);
+        lemma_powm_add(x, a, a * ((b - 1) as nat));
+        assert(a + a * ((b - 1) as nat) == a * b) by (nonlinear_arith) requires b >= 1;
+    }
+}
+
+/// squaring n times raises to the power 2^n
+proof fn lemma_powm_sq_step(x: int, e: nat)
+    requires 0 <= x < P
+    ensures (powm(x, e) * powm(x, e)) % P == powm(x, 2 * e)
+{
+    lemma_powm_add(x, e, e);
+}
+
+//@@ source math/src/field/f64/mod.rs
+//@@ extract anchor="fn exp_acc<const N: usize>(base: BaseElement, tail: BaseElement) -> BaseElement"
+//@@ rewrite "for _ in 0..N {" => "let mut k: usize = 0; while k < N {"
+//@@ rewrite "result = result.square();" => "result = result.square(); k = k + 1;"
+//@@ before "let mut k: usize = 0;"
+//@@|    let ghost xb = v(base);
+//@@|    proof { lemma_v_range(base); lemma_powm_one(xb); }
+//@@ loop 1
+//@@|        invariant wf(result), wf(tail), k <= N, xb == v(base), 0 <= xb < P, v(result) == powm(xb, p2(k as nat)),
+//@@|        decreases N - k
+//@@ after "result = result.square(); k = k + 1;"
+//@@|        proof {
+//@@|            lemma_powm_sq_step(xb, p2((k - 1) as nat));
+//@@|            reveal_with_fuel(p2, 2);
+//@@|        }
+//@@ before "result * tail"
+//@@|    proof { lemma_mul_val(result, tail); }
+pub fn exp_acc<const N: usize>(base: BaseElement, tail: BaseElement) -> (r: BaseElement)
+    requires wf(base), wf(tail)
+    ensures wf(r), v(r) == (powm(v(base), p2(N as nat)) * v(tail)) % P
+{
+    hide(redc);
+    proof { lemma_consts(); reveal_with_fuel(p2, 1); }
+    /*@@body*/
+}
+
+pub proof fn lemma_sq_val(a: BaseElement)
+    requires wf(a)
+    ensures wf(a.square_spec()), v(a.square_spec()) == (v(a) * v(a)) % P
+{
+    lemma_mul_val(a, a);
+}
+
+/// exponent bookkeeping of the chain: with e(t) the exponent of x held by t,
+/// exp_acc<n>(t, u) holds e(t) * 2^n + e(u)
+proof fn lemma_acc(x: int, et: nat, eu: nat, n: nat, vt: int, vu: int, vr: int)
+    requires 0 <= x < P, vt == powm(x, et), vu == powm(x, eu), vr == (powm(vt, p2(n)) * vu) % P
+    ensures vr == powm(x, et * p2(n) + eu)
+{
+    lemma_powm_pow(x, et, p2(n));
+    lemma_powm_add(x, et * p2(n), eu);
+}
+
+proof fn lemma_sq_mul(x: int, et: nat, vt: int, vs: int, vr: int)
+    requires 0 <= x < P, vt == powm(x, et), vs == (vt * vt) % P, vr == (vs * x) % P
+    ensures vr == powm(x, 2 * et + 1), vs == powm(x, 2 * et)
+{
+    lemma_powm_add(x, et, et);
+    lemma_powm_one(x);
+    lemma_powm_add(x, 2 * et, 1);
+}
+
+impl BaseElement {
+    //@@ extract within="impl FieldElement for BaseElement" anchor="fn inv(self) -> Self"
+    //@@ before "let t2 = self.square() * self;"
+    //@@|        let ghost x = v(self);
+    //@@|        proof {
+    //@@|            lemma_v_range(self); lemma_powm_one(x);
+    //@@|            lemma_sq_val(self);
+    //@@|            lemma_mul_val(self.square_spec(), self);
+    //@@|        }
+    //@@ after "let t2 = self.square() * self;"
+    //@@|        proof { lemma_sq_mul(x, 1, x, v(self.square_spec()), v(t2)); lemma_sq_val(t2); lemma_mul_val(t2.square_spec(), self); }
+    //@@ after "let t3 = t2.square() * self;"
+    //@@|        proof { lemma_sq_mul(x, 3, v(t2), v(t2.square_spec()), v(t3)); }
+    //@@ after "let t6 = exp_acc::<3>(t3, t3);"
+    //@@|        proof { assert(p2(3) == 8) by (compute); lemma_acc(x, 7, 7, 3, v(t3), v(t3), v(t6)); }
+    //@@ after "let t12 = exp_acc::<6>(t6, t6);"
+    //@@|        proof { assert(p2(6) == 64) by (compute); lemma_acc(x, 63, 63, 6, v(t6), v(t6), v(t12)); }
+    //@@ after "let t24 = exp_acc::<12>(t12, t12);"
+    //@@|        proof { assert(p2(12) == 4096) by (compute); lemma_acc(x, 4095, 4095, 12, v(t12), v(t12), v(t24)); }
+    //@@ after "let t30 = exp_acc::<6>(t24, t6);"
+    //@@|        proof { lemma_acc(x, 16777215, 63, 6, v(t24), v(t6), v(t30)); lemma_sq_val(t30); lemma_mul_val(t30.square_spec(), self); }
+    //@@ after "let t31 = t30.square() * self;"
+    //@@|        proof { lemma_sq_mul(x, 1073741823, v(t30), v(t30.square_spec()), v(t31)); }
+    //@@ after "let t63 = exp_acc::<32>(t31, t31);"
+    //@@|        proof {
+    //@@|            assert(p2(32) == 4294967296) by (compute);
+    //@@|            lemma_acc(x, 2147483647, 2147483647, 32, v(t31), v(t31), v(t63));
+    //@@|            lemma_sq_val(t63);
+    //@@|            lemma_mul_val(t63.square_spec(), self);
+    //@@|            lemma_sq_mul(x, 9223372034707292159, v(t63), v(t63.square_spec()), (v(t63.square_spec()) * x) % P);
+    //@@|        }
+    pub fn inv(self) -> (r: Self)
+        requires wf(self)
+        ensures wf(r), v(r) == powm(v(self), (P - 2) as nat)
+    {
+        hide(redc);
+        proof { lemma_consts(); }
+        /*@@body*/
+    }
+
+    //@@ extract anchor="pub fn exp7(self) -> Self"
+    pub fn exp7(self) -> (r: Self)
+        requires wf(self)
+        ensures wf(r), v(r) == powm(v(self), 7)
+    {
+        hide(redc);
+        proof {
+            lemma_consts();
+            let x = v(self);
+            lemma_v_range(self); lemma_powm_one(x);
+            let x2 = self.square_spec();
+            lemma_sq_val(self);
+            let x4 = x2.square_spec();
+            lemma_sq_val(x2);
+            lemma_mul_val(x2, self);
+            let x3 = MulSpec::mul_spec(x2, self);
+            lemma_mul_val(x3, x4);
+            lemma_powm_add(x, 1, 1); lemma_powm_add(x, 2, 2); lemma_powm_add(x, 2, 1); lemma_powm_add(x, 3, 4);
+        }
+        /*@@body*/
+    }
+}
+
+// ---- division, canonical integer, additive lifting ---------------------------------------------------
+
+pub proof fn lemma_add_val(a: BaseElement, b: BaseElement)
+    requires wf(a), wf(b)
+    ensures wf(AddSpec::add_spec(a, b)), v(AddSpec::add_spec(a, b)) == (v(a) + v(b)) % P
+{
+    lemma_consts();
+    lemma_redc_add(a.0 as int, b.0 as int);
+}
+
+pub proof fn lemma_sub_val(a: BaseElement, b: BaseElement)
+    requires wf(a), wf(b)
+    ensures wf(SubSpec::sub_spec(a, b)), v(SubSpec::sub_spec(a, b)) == (v(a) - v(b)) % P
+{
+    lemma_consts();
+    lemma_redc_sub(a.0 as int, b.0 as int);
+}
+
+/// mont_to_int in residue form
+pub fn mont_to_int_r(x: u64) -> (r: u64)
+    ensures r < M, r as int == redc(x as int)
+{
+    let r = mont_to_int(x);
+    proof {
+        lemma_consts();
+        let q = choose|q: int| mont_wit(x as int, r as int, q);
+        lemma_witness(r as int, x as int, q);
+        lemma_mont(r as int, x as int);
+    }
+    r
+}
+
+impl BaseElement {
+    pub fn zero() -> (r: Self) ensures wf(r), v(r) == 0
+    {
+        proof { lemma_small_mod(0, P as nat); }
+        /*@@expr source="math/src/field/f64/mod.rs" anchor="const ZERO: Self ="*/
+    }
+
+    /// Div::div
+    //@@ source math/src/field/f64/mod.rs
+    //@@ extract within="impl Div for BaseElement" anchor="fn div(self, rhs: Self) -> Self"
+    pub fn div(self, rhs: Self) -> (r: Self)
+        requires wf(self), wf(rhs)
+        ensures wf(r), v(r) == (v(self) * powm(v(rhs), (P - 2) as nat)) % P
+    {
+        hide(redc);
+        proof {
+            assert forall|t: BaseElement| wf(t) implies wf(#[trigger] MulSpec::mul_spec(self, t)) && v(MulSpec::mul_spec(self, t)) == (v(self) * v(t)) % P by {
+                lemma_mul_val(self, t);
+            }
+        }
+        /*@@body*/
+    }
+
+    /// Neg::neg
+    //@@ extract within="impl Neg for BaseElement" anchor="fn neg(self) -> Self"
+    //@@ rewrite "Self::ZERO" => "Self::zero()"
+    pub fn neg(self) -> (r: Self)
+        requires wf(self)
+        ensures wf(r), v(r) == (0 - v(self)) % P
+    {
+        hide(redc);
+        proof {
+            assert forall|t: BaseElement| wf(t) implies wf(#[trigger] SubSpec::sub_spec(t, self)) && v(SubSpec::sub_spec(t, self)) == (v(t) - v(self)) % P by {
+                lemma_sub_val(t, self);
+            }
+        }
+        /*@@body*/
+    }
+
+    /// StarkField::as_int: the canonical integer of the residue
+    //@@ extract within="impl StarkField for BaseElement" anchor="fn as_int(&self) -> Self::PositiveInteger"
+    //@@ rewrite "mont_to_int(" => "mont_to_int_r("
+    pub fn as_int(&self) -> (r: u64)
+        ensures (r as int) == v(*self), (r as int) < P
+    {
+        proof { lemma_consts(); }
+        /*@@body*/
+    }
+
+    //@@ extract within="impl From<u32> for BaseElement" anchor="fn from(value: u32) -> Self"
+    //@@ rewrite "value.into()" => "value as u64"
+    pub fn from_u32(value: u32) -> (r: Self)
+        ensures wf(r), v(r) == value as int
+    {
+        proof { lemma_small_mod(value as nat, P as nat); }
         /*@@body*/
     }
 }
